@@ -393,3 +393,9 @@ CHECKS["C18"]["rule"] += (" Stage arrsnap (Model/CorrSnap.v): one point whose fi
                           "that many memstore updates) is inserted into an existing or a new key while memstore-inclusive SELECT * queries are issued back to back; "
                           "every result must be the table before the point or the table after it (the implementation's own quiescent answers), never a part "
                           "of the point. non-trivial: at least one query ran before the point was complete.")
+
+CHECKS["C04"]["stages"] = CHECKS["C04"]["stages"] + [dict(sub="flushrace", quick=4, thorough=64, shards=4, shard_min=16, shrink=[], seed_salt=404)]
+CHECKS["C04"]["rule"] += (" Stage flushrace (Model/CorrSnap.v): 4000-24000 keys in the memstore (in half of the cases on top of a file holding half of them), a probe "
+                          "(SELECT fa FROM t GROUP BY _), then FlushAll in the background while memstore-inclusive SELECT * ... LIMIT 1 queries are started back to back "
+                          "until it ends; the probe must return the same rows afterwards, again after a time-ranged grouped query and a second flush, and from "
+                          "disk only. non-trivial: at least one query started during the flush.")
